@@ -42,7 +42,8 @@ pub struct Case {
     pub script: Vec<Step>,
 }
 
-const HTTP_BEHAVIOURS: [&str; 15] = ["ok", "500", "502", "503", "504", "429", "429ra", "400", "403", "404", "malformed200", "empty200", "refused", "reset", "stall"];
+// every 5xx is a transient server failure and every 4xx other than 429 a definitive refusal, not only the common codes
+const HTTP_BEHAVIOURS: [&str; 22] = ["ok", "500", "502", "503", "504", "501", "507", "521", "599", "429", "429ra", "400", "403", "404", "401", "410", "418", "malformed200", "empty200", "refused", "reset", "stall"];
 const TCP_BEHAVIOURS: [&str; 10] = ["mime_ok", "mime_ok_data", "v2_ok", "v2_blank", "malformed", "refused", "close_before", "close_mid", "reset_mid", "stall"];
 const SEGS: [&str; 5] = ["whole", "bytes1", "random", "blank", "tokens"];
 
@@ -129,8 +130,10 @@ fn http_class(b: &str, body_ok: bool) -> Class {
         "malformed200" | "empty200" => {
             if body_ok { Class::Answer } else { Class::Definitive }
         }
-        "400" | "403" | "404" => Class::Definitive,
-        _ => Class::Transient,
+        _ => match b.parse::<u16>() {
+            Ok(code) if (400..500).contains(&code) && code != 429 => Class::Definitive,
+            _ => Class::Transient,
+        },
     }
 }
 
